@@ -8,10 +8,17 @@ Two routes (DESIGN I.10), both on the real code or on contracts proved for the r
    proved on the spec: pointwise lemmas (the summand / the minimum-image distance is invariant) + Σ-congruence.  These clauses say
    nothing about the code by themselves, so this check re-runs the functional units they rest on.
 
-Relational units here:  rigid (per-frame) translation and species swap for g(r); rigid translation for the three neighbour writers
-(the written rows are identical).  Lemmas: lattice-shift invariance of the minimum-image distance (C02 clause c instantiated for a pair),
-dilation (bin membership and shell normalisation are scale free), axis permutation of an orthogonal cell, species-swap of the selector,
-g(r) spec invariance under these by Σ-congruence.
+Relational units (this module: g(r) and the neighbour writers; contracts/C07_units.py: every other observable, on the setups of the
+units of C04, C06, C09, C10, C11, C13, C15, C17, which are imported read-only).  Group elements (C07_units.py):
+  Translation      x_i -> x_i + t_s (a vector per frame; one vector for all frames where frames are compared: dynamics, single snapshots);
+  LatticeShift     x_i -> x_i + sum_k KSH(s,i,k) ppp_k H_s[k,:], integer KSH: at every call of remove_pbc the run on g.x applies clause (c) of
+                   the C02 contract — the rows are decomposed as row-of-x + integer lattice vector (obligation, ring normal form);
+  AxisPermutation  coordinates, cell rows and columns, mask and box lengths permuted together (remove_pbc commutes with it: lemma on
+                   the C02 formula, general cell);
+  Relabelling      particle a of g.x is particle PI(a) of x (positions, types, rows and entries of the neighbour / weight files).
+Observables x groups proved: see MANIFEST["text"]; what stays in the bounded stand-in (contracts/C07_relational.py): NOT_DECIDED.
+Lemmas (extra_checks): lattice-shift invariance of the minimum-image vector of a pair (C02 clause c), dilation, axis permutation
+(orthogonal distance; general-cell vector form), species swap of the selector.
 """
 import z3
 
@@ -25,12 +32,43 @@ from pyvc.interp import FuncVal, load_module
 from pyvc.vc import Unit
 
 NOT_DECIDED = [
-    "rotation invariance of q_l and w-hat_l (needs unitarity of the Wigner D-matrices: no contract on this code expresses it)",
+    "rotation invariance of q_l, w-hat_l, |psi_l|, tetrahedral order, shape descriptors, participation ratio for open clusters (needs unitarity of "
+    "the Wigner D-matrices / orthogonal invariance of eigenvalues: no contract on this code expresses it) — bounded stand-in only",
     "'to floating-point accuracy': the proofs are exact over the reals (A1)",
-    "relabelling of particle ids for pair sums (reindexing a double Σ by a bijection is a trusted rule that is not mechanised here; validated by replay only)",
+    "exact half-cell ties under lattice shifts (hypothesis of C02 clause c; stated in the clause names)",
+    "relabelling of particle ids where a sum over ALL particles or over pairs has to be re-indexed: g(r), conditional_gr, Hessian assembly, "
+    "S2 (sum over j != i), relaxation functions, gyration tensor, tetrahedral order and the neighbour writers (argpartition / argsort rows): bounded "
+    "stand-in only.  Proved: psi_l, q_lm, Q_lm (sums over neighbour slots: only PI(PINV(j)) = j is needed); S(q) with the reindexing rule as a "
+    "TRUSTED hypothesis",
+    "axis permutation of: |psi_l| (atan2 under the exchange of its arguments), q_l / w_l (a rotation), tetrahedral order (the argpartition "
+    "contract's symbol depends on the order of summation), Hessian (blocks permute), S(q) (the wave-vector list is permuted), relaxation with "
+    "minimum-image displacements (x-only): bounded stand-in only",
+    "derived bond-order invariants q_l, Q_l, w_l, w-hat_l: functions of the proved-invariant q_lm / Q_lm arrays, the methods ql_Ql / w_W_cap "
+    "themselves are not run relationally (bounded stand-in)",
+    "Hessian: eigenvectors / participation ratios of the run on g.x (eigh's result is not unique for degenerate spectra); the matrix handed to "
+    "eigh is proved identical, the spectrum is a function of it",
+    "S(q): the returned table is groupby(|q|).mean() of the per-wave-vector table proved invariant (the engine's groupby contract introduces "
+    "fresh group symbols per call, so the grouped tables of two runs are not compared)",
+    "lattice shifts in Dynamics.relaxation: the shift of a particle is the same in every frame (a shift that changes between frames changes "
+    "unwrapped displacements)",
+    "dilation: lemmas over the contracts + bounded stand-in (no relational unit)",
 ]
 TRUSTED = [
-    "Σ-congruence (extensionality axiom instances of pyvc/axioms.py) for the lemma route",
+    "Σ axiom instances of pyvc/axioms.py: extensionality (with pointwise facts, each proved at an arbitrary index as its own obligation), "
+    "linearity (sigma_linear) and constant summand (const_sum) for the centre of mass, unfold-last (as rewrites in the induction step of S(q))",
+    "induction over the number of particles (S(q) under translation): base and step are obligations, the principle is trusted",
+    "angle-addition instances cos(A+B) = cos A cos B - sin A sin B, sin(A+B) = sin A cos B + cos A sin B (S(q), translation), 2 pi Z periodicity "
+    "instances with Z an integer-sorted term (S(q), lattice shift), cos^2 + sin^2 = 1 (hypothesis of the frame-term lemma): used as rewrites / "
+    "hypotheses, the argument identities (argument of the code = A + B) are obligations",
+    "application of clause (c) of the remove_pbc contract (C02, re-verified by this check) at the calls of the run on g.x (lattice shift), of the "
+    "lemma `remove_pbc commutes with axis permutations` (proved here on the C02 formula) at the calls of the run on g.x (axis permutation)",
+    "relabelling: PI / PINV are mutually inverse bijections of [0, N) (definition of the group element, facts per application); "
+    "Σ-reindexing by a bijection, sum_{i<N} f(PI(i)) = sum_{i<N} f(i), is TRUSTED and used for S(q) only — its instances are explicit hypotheses "
+    "of the `frame-term` obligations",
+    "the setups, callee contracts (read_neighbors, sph_harm_l, s2_integral, PairInteractions.caller, pair_matrix, cage_relative) and written loop "
+    "invariants of the base units (C04, C06, C09, C10, C11, C13, C15, C17) — used as in their own checks; the relational clauses use nothing of "
+    "their functional postconditions",
+    "relational library contracts as functions of their array argument (argpartition, argsort, max, eig / eigh): the same symbol for ring-equal data",
     "the functional contracts of C02 / C03 / C05 the lemma route rests on (their units are re-run by this check)",
 ]
 
@@ -501,6 +539,9 @@ def _relational_units():
         units += [U.Sq(C04.Method(1), g, cases=["d=2/nofile/species=1", "d=3/nofile/species=1"]), U.Sq(C04.Method(2), g, cases=["d=2/nofile", "d=3/nofile"])]
         if not q:
             units += [U.Sq(C04.Method(3), g, cases=["d=2/nofile", "d=3/nofile"])]
+    P = U.RELABEL
+    units += [U.Boo2d(C10.LthOrder(), P, cases=["unweighted/nofile", "weighted/nofile"]), U.Boo3d(C09.QlmQlm(), P),
+              U.Sq(C04.Method(1), P, cases=["d=2/nofile/species=1", "d=3/nofile/species=1"]), U.Sq(C04.Method(2), P, cases=["d=2/nofile", "d=3/nofile"])]
     X = U.AXES
     units += [
         GrTranslation(1, X), GrTranslation(2, X), WriterTranslation("cutoffneighbors", X), WriterTranslation("Nnearests", X),
@@ -528,17 +569,20 @@ UNITS = [GrTranslation(1), GrTranslation(2), GrTranslation(3), GrSpeciesSwap(), 
 
 
 MANIFEST = {
-    "text": "Relational execution of the real ASTs (symbolic T, N, cells, masks, bin index; d in {2,3}): gr.unary/binary/ternary return "
-            "identical columns for a trajectory and its rigid translation (an arbitrary vector per frame); gr.binary with the two species "
-            "labels swapped returns the same total and cross column and swaps gr11/gr22; cutoffneighbors and Nnearests write identical rows "
-            "for a trajectory and its translation. Lemmas over the proved contracts: the minimum-image vector of a pair is invariant under "
-            "integer lattice shifts of either particle along periodic axes (away from ties), scales with a common dilation of coordinates and "
-            "cell, and its norm is invariant under a permutation of the axes of an orthogonal cell together with the mask; bin membership and "
-            "V/shell are scale free; the species swap maps each pair selector to the swapped one. The functional units these lemmas rest on "
-            "(C02 remove_pbc, C03 gr.unary/binary count and normalisation clauses) are re-verified in the same run.",
-    "note": "floats as reals (A1): 'to floating-point accuracy' is not decided; rotation invariance of q_l / w-hat_l is not decidable by "
-            "contracts on this code; relabelling of ids for pair sums needs the reindexing rule for double sums (not mechanised; replay only); "
-            "the extension of the relational units to S(q), BOO, tetrahedral order, pair entropy, Hessian and dynamics follows their own "
-            "contracts (C04, C06, C09-C11, C17) and is listed under not_decided_clauses where not done",
+    "text": "Relational execution of the real ASTs on x and on g.x (symbolic T, N, cells, masks, indices; d in {2,3}), results compared at a symbolic "
+            "index. TRANSLATION (a vector per frame; one vector where frames are compared): g(r) unary/binary/ternary, cutoffneighbors, Nnearests, "
+            "S(q) unary/binary per wave vector (unit-modulus phase: induction over particles, polynomial lemma), boo_2d.lthorder psi_l, boo_3d q_lm and Q_lm, "
+            "q8_tetrahedral, S2.particle_s2 (S2 and particle g(r)), gyration_tensor (tensor and descriptors: Σ-linearity of the centre of mass), "
+            "divergence_curl, the Hessian handed to eigh (assembly loops of the second run re-verified), Dynamics.relaxation (all six columns), "
+            "conditional_gr. LATTICE SHIFTS of single particles along periodic axes, away from half-cell ties: the same list (C02 clause c applied at every "
+            "remove_pbc call, rows decomposed as row + integer lattice vector; S(q): 2 pi periodicity; not gyration). AXIS PERMUTATION with cell and mask: g(r), "
+            "neighbour writers, S2, divergence and curl, relaxation (unwrapped), conditional_gr. RELABELLING: psi_l, q_lm, Q_lm permute with the ids "
+            "(neighbour / weight files relabelled consistently); S(q) under the trusted reindexing rule. SPECIES SWAP: gr.binary swaps gr11/gr22. "
+            "Lemmas over the proved contracts: lattice shift, dilation, axis permutation (general cell), selector swap. The units of remove_pbc (C02) and "
+            "gr.unary/binary (C03) the lemma route rests on are re-verified in the same run.",
+    "note": "floats as reals (A1); rotations of open clusters, relabelling of pair sums / sums over all particles, axis permutation of BOO / tetrahedral / "
+            "Hessian / S(q), derived invariants q_l, w_l and dilation of g(r) remain in the bounded relational stand-in (contracts/C07_relational.py, "
+            "36 relations, reported under `bounded`, never counted); lattice-shift clauses assume no row at an exact half-cell tie; the Σ-reindexing rule "
+            "(S(q) relabelling), angle-addition / periodicity instances and the induction principle are trusted (TRUSTED)",
     "category": "proof",
 }
